@@ -121,6 +121,12 @@ def run(rep, tier, seed):
     for stack, pkt in special_packets(rnd):
         items.append((stack, pkt, parser_for(stack).parse(Buffer(pkt, len(pkt) * 8))))
         rep.hist['special-packets'] = rep.hist.get('special-packets', 0) + 1
+    # IP-in-IP tunnels (a public PacketParser with two IP header parsers): the lengths of both headers, the checksum of the inner
+    # IPv4 header and the UDP checksum over the INNER addresses are regenerated; the same field id may be computed twice in one rule
+    from gens import gen_tunnel
+    for k in range(6 if tier == 'quick' else 60):
+        items.append(gen_tunnel(rnd, k))
+        rep.hist['tunnel-packets'] = rep.hist.get('tunnel-packets', 0) + 1
     for stack, pkt, pd in items:
         comp = [(k, f) for k, f in enumerate(pd.fields) if str(getattr(f.id, 'value', f.id)) in COMPUTABLE]
         for k, f in comp:
